@@ -14,14 +14,14 @@ git -C "$WT" status --short | grep -v '^??' && { echo "worktree dirty"; exit 2; 
 mkdir -p "$OUT"
 cp "$SD/patch.diff" "$OUT/patch.diff"; cp "$SD/demo.py" "$OUT/demo.py" 2>/dev/null; cp "$SD/README.md" "$OUT/README.seeder.md" 2>/dev/null
 # 1. demo on the unchanged tree
-( cd "$SD" && PYTHONPATH="$WT" timeout 600 /venv/bin/python demo.py >/tmp/lead/demo_clean.log 2>&1 ); CLEAN=$?
+( cd "$SD" && PYTHONPATH="$WT" timeout 600 /venv/bin/python demo.py >/tmp/lead/demo_clean_$PROP.log 2>&1 ); CLEAN=$?
 # 2. apply
 git -C "$WT" apply "$SD/patch.diff" || { echo "patch does not apply"; exit 2; }
-( cd "$SD" && PYTHONPATH="$WT" timeout 600 /venv/bin/python demo.py >/tmp/lead/demo_seeded.log 2>&1 ); SEEDED=$?
+( cd "$SD" && PYTHONPATH="$WT" timeout 600 /venv/bin/python demo.py >/tmp/lead/demo_seeded_$PROP.log 2>&1 ); SEEDED=$?
 # 3. whole repository suite with the change
-( cd "$WT" && env -u TRIMESH_VERIF PYTHONPATH="$WT" timeout 3000 /venv/bin/python -m pytest -q -p no:cacheprovider --timeout=900 --continue-on-collection-errors -n 8 > /tmp/lead/seed_suite.log 2>&1 )
-SUITE=$(tail -1 /tmp/lead/seed_suite.log)
-FAILED=$(grep -E "^FAILED|^ERROR" /tmp/lead/seed_suite.log | grep -v "test_on_edge" | head -5)
+( cd "$WT" && env -u TRIMESH_VERIF PYTHONPATH="$WT" timeout 3000 /venv/bin/python -m pytest -q -p no:cacheprovider --timeout=900 --continue-on-collection-errors -n 8 > /tmp/lead/seed_suite_$PROP.log 2>&1 )
+SUITE=$(tail -1 /tmp/lead/seed_suite_$PROP.log)
+FAILED=$(grep -E "^FAILED|^ERROR" /tmp/lead/seed_suite_$PROP.log | grep -v "test_on_edge" | head -5)
 # 4. registered checks against the changed tree
 RES=""
 for P in $PROP $EXTRA; do
